@@ -98,6 +98,9 @@ def replay_atmos(col, case):
         want = np.array([fl(h) for h in case["heights"]]) * (R / g)
         if not allclose(got, want, rel=1e-11):
             col.violation("pressure2height-wrong-value", dict(rep, expected=want.tolist(), observed=np.asarray(got).tolist()))
+        gi = A.pressure2height((p * 1024).astype(int), T)          # integer-typed pressures (whole Pa) give the same heights
+        if not allclose(gi, want, rel=1e-11):
+            col.violation("pressure2height-wrong-value-int-pressure", dict(rep, expected=want.tolist(), observed=np.asarray(gi).tolist()))
         if got[0] != 0 or np.any(np.diff(got) <= 0):
             col.violation("pressure2height-not-increasing-from-zero", dict(rep, observed=np.asarray(got).tolist()))
     except Exception as ex:
